@@ -21,11 +21,11 @@ INV = {
 
 
 def core_cfg(layouts, methods, xffs, horizon, ticks, maxbatch, vals="Vals12", valmode="free", withsync=False,
-             export="none", sample=1, invs=(), props=(), quirks="{}", actcon=None, future=0):
+             export="none", sample=1, invs=(), props=(), quirks="{}", actcon=None, future=0, nanval=False):
     lines = ["SPECIFICATION Spec", "CONSTANTS", "  Quirks = " + quirks,
              "  Layouts <- " + layouts, "  Methods <- " + methods, "  Xffs <- " + xffs,
              "  T0 = 100", "  Horizon = %d" % horizon, "  Ticks <- " + ticks, "  Vals <- " + vals, "  ValUnit = 12",
-             "  MaxBatch = %d" % maxbatch, "  FutureMax = %d" % future, '  ValMode = "%s"' % valmode,
+             "  MaxBatch = %d" % maxbatch, "  FutureMax = %d" % future, "  NaNVal = %s" % ("TRUE" if nanval else "FALSE"), '  ValMode = "%s"' % valmode,
              "  WithSync = %s" % ("TRUE" if withsync else "FALSE"),
              '  Export = "%s"' % export, "  ExportSample = %d" % sample, "VIEW View"]
     if invs:
@@ -94,7 +94,8 @@ EXPORT_PLAN = {
                 ("MCLayoutsC", "MethodSum", "XffOne", 3, "Ticks12", 2, "Vals1", 2, "all", 2)],
         "C02": [("MCLayoutsD", "MethodsAll", "XffZero", 2, "Ticks12", 2, "Vals1", 4, "edges"),
                 ("MCLayoutsQuick", "MethodsAll", "XffOne", 2, "Ticks12", 2, "Vals1", 16, "edges"),
-                ("MCLayoutsG", "MethodSum", "XffThirds", 1, "Ticks1", 2, "Vals1", 8, "edges")],   # known fraction exactly at a non-dyadic xFilesFactor
+                ("MCLayoutsG", "MethodSum", "XffThirds", 1, "Ticks1", 2, "Vals1", 8, "edges"),   # known fraction exactly at a non-dyadic xFilesFactor
+                ("MCLayoutsH", "MethodSum", "XffZero", 3, "Ticks12", 1, "Vals1", 1, "edges")],  # coarse interval starting at the retention edge
         "C03": [("MCLayoutsQuick", "MethodSum", "XffOne", 2, "Ticks12", 2, "Vals12", 24, "edges"),
                 ("MCLayoutsD", "MethodSum", "XffOne", 2, "Ticks12", 2, "Vals1", 4, "edges")],
         "C04": [("MCLayoutsA", "MethodSum", "XffOne", 6, "Ticks1J", 1, "Vals1", 1, "states"),
@@ -111,7 +112,8 @@ EXPORT_PLAN = {
                 ("MCLayoutsQuick", "MethodsAll", "XffSet", 2, "Ticks12", 2, "Vals12", 16, "edges"),
                 ("MCLayouts3", "MethodsAll", "XffSet", 1, "Ticks1", 2, "Vals1", 16, "edges"),
                 ("MCLayoutsB", "MethodsAll", "XffSet", 1, "Ticks1", 2, "Vals1", 16, "edges"),
-                ("MCLayoutsF", "MethodsQuick", "XffFifths", 2, "Ticks12", 2, "Vals1", 8, "edges")],
+                ("MCLayoutsF", "MethodsQuick", "XffFifths", 2, "Ticks12", 2, "Vals1", 8, "edges"),
+                ("MCLayoutsH", "MethodsQuick", "XffSet", 4, "Ticks12", 2, "Vals1", 8, "edges")],
         "C03": [("MCLayoutsQuick", "MethodSum", "XffOne", 3, "Ticks12", 3, "Vals1", 64, "edges"),
                 ("MCLayoutsB", "MethodSum", "XffOne", 2, "Ticks12", 2, "Vals1", 8, "edges"),
                 ("MCLayoutsD", "MethodSum", "XffOne", 2, "Ticks12", 2, "Vals1", 8, "edges"),
@@ -165,13 +167,14 @@ def _run_core(prop, tier, seed, v, wd):
         nw = max(2, NCPU // max(1, min(4, len(mcs) + len(exps))))
         for i, pl in enumerate(mcs):
             (lay, meth, xff, hor, ticks, mb, vals), fut = pl[:7], (pl[7] if len(pl) > 7 else 0)
-            cfg = core_cfg(lay, meth, xff, hor, ticks, mb, vals=vals, withsync=(prop == "C05"), invs=invs, props=props, future=fut)
+            cfg = core_cfg(lay, meth, xff, hor, ticks, mb, vals=vals, withsync=(prop == "C05"), invs=invs, props=props, future=fut,
+                           nanval=(prop == "C06"))
             futs.append(("mc", pl,
                          ex.submit(run_tlc, wd, "MC_Core", cfg, "mc%d" % i, nw, 7000)))
         # 2. export edges / states for spec -> code replay
         for i, pl in enumerate(exps):
             (lay, meth, xff, hor, ticks, mb, vals, sample, kind), fut = pl[:9], (pl[9] if len(pl) > 9 else 0)
-            cfg = core_cfg(lay, meth, xff, hor, ticks, mb, vals=vals, export=kind, sample=sample, future=fut,
+            cfg = core_cfg(lay, meth, xff, hor, ticks, mb, vals=vals, export=kind, sample=sample, future=fut, nanval=(prop == "C06"),
                            invs=["ExportState"] if kind in ("states", "all") else [],
                            actcon="ExportEdge" if kind in ("edges", "all") else None)
             futs.append(("export", pl,
@@ -185,7 +188,7 @@ def _run_core(prop, tier, seed, v, wd):
                 dcmd = [binp, "drive-gw", str(seed), str(ntr), trace_file]
             else:
                 dcmd = [binp, "drive-core", prop, str(seed), "0", str(ntr), trace_file]
-            p = subprocess.run(dcmd, stdout=subprocess.PIPE, stderr=subprocess.STDOUT, text=True)
+            p = subprocess.run(dcmd, stdout=subprocess.PIPE, stderr=subprocess.STDOUT, text=True, timeout=HARNESS_TIMEOUT)
             if p.returncode != 0:
                 raise Broken("driver failed: " + p.stdout[-2000:])
         results = [(k, meta, f.result()) for k, meta, f in futs]
